@@ -25,6 +25,8 @@ from custom_components.pyscript.global_ctx import GlobalContext, GlobalContextMg
 from homeassistant.core import State as CoreState, Context, Event as HAEvent
 from . import vdt
 
+import os as _os
+_DEBUG = bool(_os.environ.get("VERIF_DEBUG"))
 T0 = 1000 * 10**6   # virtual clock start in MICROSECONDS (must be > 0: TimeActiveDecorator uses last_trig_time > 0.0 as "never")
 BASE_DATE = (2020, 6, 1, 12, 0, 0)   # dt_now() = BASE_DATE + (clock - T0)
 SEC = 10**6
@@ -184,6 +186,9 @@ class Env:
             t.done_ = True; t.res = e.value
         except (Exception, asyncio.CancelledError) as e:
             t.done_ = True; t.exc = e
+            if _DEBUG and not isinstance(e, asyncio.CancelledError):
+                import traceback
+                print("TASK-EXC", t.name, "".join(traceback.format_exception(e))[-1800:], file=sys.stderr, flush=True)
         finally:
             self.cur = None
         if t.done_:
